@@ -74,6 +74,15 @@ def _run_scenario(idx: int) -> Tuple[int, List[Dict[str, Any]], Optional[str], f
         return idx, [ob.to_json()], None, time.time() - t, {}
 
 
+def _alpha_notes() -> Dict[str, Any]:
+    """renamed functions / methods / classes / fields are read under the name the sidecar contracts use (vf.alpha)"""
+    from vf import alpha, instrument
+    ren, notes = alpha.renames_for(os.path.join(instrument.repo_root(), "src"))
+    return {"applied": dict(ren), "notes": list(notes),
+            "what": "contracts are keyed by name; an identifier that was consistently renamed in the tree (old name gone, new name fresh) "
+                    "is read under its old name in every module before the obligations are generated -- a bijective renaming, nothing else is changed"}
+
+
 def load_findings() -> Dict[str, Any]:
     p = os.path.join(ROOT, "known_findings.json")
     if os.path.exists(p):
@@ -259,6 +268,7 @@ def main(argv=None) -> int:
         "samples": samples,
         "replay_files": replay_paths,
         "repo_tree": os.environ.get("JASM_REPO", "/repo"),
+        "identifier_normalisation": _alpha_notes(),
     }
     coverage.update({k: v for k, v in extra.items() if k != "bounded_standins"})
     if True:
